@@ -1,8 +1,8 @@
 (** C14 — for a name containing '/' the round trip fails: ListMailbox("s/t") is served as message "t" of mailbox "s" and the client reports an error although the mailbox holds a message (witness of K-C14-client-slash) *)
 From IV Require Import Base.Bytes Model.StoreSpec Model.Rest Proofs.RestClient.
 Theorem client_roundtrip_slash_refuted :
-  spec_cop mfa_id cfg0 st_one (CList mb_st) <> Some (client_do mfa_id cfg0 [] [] st_one (CList mb_st))
-  /\ snd (client_do mfa_id cfg0 [] [] st_one (CList mb_st)) = CErr
+  spec_cop mfa_id cfg0 st_one (CList mb_st) <> Some (client_do mfa_id cfg0 src_all [] [] st_one (CList mb_st))
+  /\ snd (client_do mfa_id cfg0 src_all [] [] st_one (CList mb_st)) = CErr
   /\ exists v, option_map snd (spec_cop mfa_id cfg0 st_one (CList mb_st)) = Some (COkList mb_st [v]).
 Proof. exact client_slash_witness. Qed.
 Print Assumptions client_roundtrip_slash_refuted.
